@@ -31,7 +31,7 @@ WF0 = 'cv_wf(*old(self))'
 KEEP = 'final(self).content == old(self).content && cv_wf(*final(self))'
 MOVE = 'only_cursor(*old(self), *final(self)) && cv_wf(*final(self))'
 LAYER = 'layer < LAYER_COUNT'
-FOUND = ('r is Ok ==> r->Ok_0.1 == final(self).cursor && in_grid(*old(self), r->Ok_0.1) && at(*old(self), r->Ok_0.1.x as int, r->Ok_0.1.y as int, layer as int) == r->Ok_0.0 && has(searched@, r->Ok_0.0)')
+FOUND = ('r is Ok ==> r->Ok_0.1 == final(self).cursor && in_grid(*old(self), r->Ok_0.1) && at(old(self).content@, r->Ok_0.1.x as int, r->Ok_0.1.y as int, layer as int) == r->Ok_0.0 && among(searched@, r->Ok_0.0)')
 ERRKEEP = 'r is Err ==> final(self).cursor == old(self).cursor'
 CHAR = 'proof { axiom_char_eq(); }'
 RN = [('RX', 'R11', r'let text = text\.trim\(\);\s*if let Ok\(rule_number\) = usize::from_str\(text\) \{', 'if let Ok(rule_number) = rule_number_from(text) {', 1)]
@@ -42,14 +42,43 @@ PAINT = 'text_kept(old(self).content@, final(self).content@) && grid_rect(final(
 PAINT_INV = 'text_kept(old(self).content@, self.content@) && only_content(*old(self), *self)'
 RECT_OK = ('r is Ok ==> r->Ok_0.left == top_left.x && r->Ok_0.top == top_left.y && r->Ok_0.left + 1 < r->Ok_0.right <= grid_w(old(self).content@) && r->Ok_0.top + 1 < r->Ok_0.bottom <= old(self).content@.len()')
 
-def search_dir(name, moved, between, loopinv, dec):
+def search_dir(name, var, forward):
+    """contract of a directional search: var 'x' (row scan) or 'y' (column scan); forward: towards larger coordinates"""
+    other = 'y' if var == 'x' else 'x'
+    c = 'old(self).cursor.%s' % var          # start coordinate
+    cs = 'self.cursor.%s' % var
+    def at(cv, j):
+        return 'at(%s, %s, %s, layer as int)' % ((cv, j, 'old(self).cursor.y as int') if var == 'x' else (cv, 'old(self).cursor.x as int', j))
+    def at_s(j):
+        return 'at(self.content@, %s, %s, layer as int)' % ((j, 'y as int') if var == 'x' else ('x as int', j))
+    limit = 'grid_w(old(self).content@)' if var == 'x' else 'old(self).content@.len()'
+    limit_s = 'grid_w(self.content@)' if var == 'x' else 'self.content@.len()'
+    p = 'r->Ok_0.1.%s' % var
+    if forward:
+        between = lambda j, k: '%s < %s < %s' % (c, j, k)
+        ahead = lambda k: '%s < %s < %s' % (c, k, limit)
+        scanned = '%s <= %s < %s && forall |j: int| %s < j <= %s ==> among(allowed@, #[trigger] %s) && !among(searched@, %s)' % (cs, var, limit_s, cs, var, at_s('j'), at_s('j'))
+        moved = '%s > %s' % (p, c)
+        dec = '%s - %s' % (limit_s, var)
+    else:
+        between = lambda j, k: '%s < %s < %s' % (k, j, c)
+        ahead = lambda k: '0 <= %s < %s' % (k, c)
+        scanned = '%s <= %s && forall |j: int| %s <= j < %s ==> among(allowed@, #[trigger] %s) && !among(searched@, %s)' % (var, cs, var, cs, at_s('j'), at_s('j'))
+        moved = '%s < %s' % (p, c)
+        dec = var
+    same = 'r->Ok_0.1.%s == old(self).cursor.%s' % (other, other)
     return fn(CV, 'Canvas', name, ret='r', loops=1, body_prefix=CHAR,
               requires=[('wf', WF0), ('layer', LAYER), ('row_not_empty', 'grid_w(old(self).content@) > 0')],
-              ensures=[('only_cursor_moves', MOVE), ('found', FOUND), ('error_keeps_cursor', ERRKEEP), ('direction', 'r is Ok ==> ' + moved),
-                       ('only_allowed_between', 'r is Ok ==> ' + between)],
-              loop_specs={0: {'invariant': [('grid', 'only_cursor(*old(self), *self) && self.cursor == old(self).cursor && cv_wf(*self) && grid_w(self.content@) > 0 && layer < LAYER_COUNT'),
-                                            ('scanned', loopinv)],
-                              'decreases': dec, 'body_prefix': CHAR}})
+              ensures=[('only_cursor_moves', MOVE), ('found', FOUND), ('error_keeps_cursor', ERRKEEP), ('direction', 'r is Ok ==> %s && %s' % (same, moved)),
+                       ('only_allowed_between', 'r is Ok ==> forall |j: int| %s ==> among(allowed@, #[trigger] %s)' % (between('j', p), at('old(self).content@', 'j'))),
+                       ('nearest', 'r is Ok ==> forall |j: int| %s ==> !among(searched@, #[trigger] %s)' % (between('j', p), at('old(self).content@', 'j'))),
+                       ('found_whenever_reachable', 'r is Err ==> forall |k: int| %s && among(searched@, %s) ==> exists |j: int| %s && !among(allowed@, #[trigger] %s) && !among(searched@, %s)'
+                        % (ahead('k'), at('old(self).content@', 'k'), between('j', 'k'), at('old(self).content@', 'j'), at('old(self).content@', 'j')))],
+              loop_specs={0: {'invariant': [('grid', 'only_cursor(*old(self), *self) && self.cursor == old(self).cursor && cv_wf(*self) && grid_w(self.content@) > 0 && layer < LAYER_COUNT && %s == self.cursor.%s' % (other, other)),
+                                            ('scanned', scanned)],
+                              'decreases': dec, 'body_prefix': CHAR}},
+              splices=[{'id': 'blocked', 'op': 'before', 'anchor': 'return Err(canvas_character_is_not_allowed(ch, allowed.to_vec()));',
+                        'text': 'proof { let jj = %s as int; assert(!among(allowed@, %s) && !among(searched@, %s)); }' % (var, at_s('jj'), at_s('jj'))}])
 
 def crossing(name, variant):
     return fn(PL, 'Plane', name, ret='r', loops=2, rewrites=[('R1', 1), ('R1', 0)],
@@ -113,18 +142,7 @@ UNIT = {
            loop_specs={0: {'invariant': [('grid', 'only_cursor(*old(self), *self) && self.cursor == old(self).cursor && cv_wf(*self) && layer < LAYER_COUNT && x == self.cursor.x && y == self.cursor.y && y < self.content@.len()')], 'body_prefix': CHAR},
                        1: {'invariant': [('grid', 'only_cursor(*old(self), *self) && self.cursor == old(self).cursor && cv_wf(*self) && layer < LAYER_COUNT && y == self.cursor.y')], 'body_prefix': CHAR},
                        2: {'invariant': [('grid', 'only_cursor(*old(self), *self) && self.cursor == old(self).cursor && cv_wf(*self) && layer < LAYER_COUNT && r < self.content@.len()')], 'body_prefix': CHAR}}),
-        search_dir('search_up', 'r->Ok_0.1.x == old(self).cursor.x && r->Ok_0.1.y < old(self).cursor.y',
-                   'forall |j: int| r->Ok_0.1.y < j < old(self).cursor.y ==> has(allowed@, #[trigger] at(*old(self), old(self).cursor.x as int, j, layer as int))',
-                   'x == self.cursor.x && y <= self.cursor.y && forall |j: int| y <= j < self.cursor.y ==> has(allowed@, #[trigger] at(*self, x as int, j, layer as int))', 'y'),
-        search_dir('search_left', 'r->Ok_0.1.y == old(self).cursor.y && r->Ok_0.1.x < old(self).cursor.x',
-                   'forall |j: int| r->Ok_0.1.x < j < old(self).cursor.x ==> has(allowed@, #[trigger] at(*old(self), j, old(self).cursor.y as int, layer as int))',
-                   'y == self.cursor.y && x <= self.cursor.x && forall |j: int| x <= j < self.cursor.x ==> has(allowed@, #[trigger] at(*self, j, y as int, layer as int))', 'x'),
-        search_dir('search_right', 'r->Ok_0.1.y == old(self).cursor.y && r->Ok_0.1.x > old(self).cursor.x',
-                   'forall |j: int| old(self).cursor.x < j < r->Ok_0.1.x ==> has(allowed@, #[trigger] at(*old(self), j, old(self).cursor.y as int, layer as int))',
-                   'y == self.cursor.y && self.cursor.x <= x < grid_w(self.content@) && forall |j: int| self.cursor.x < j <= x ==> has(allowed@, #[trigger] at(*self, j, y as int, layer as int))', 'grid_w(self.content@) - x'),
-        search_dir('search_down', 'r->Ok_0.1.x == old(self).cursor.x && r->Ok_0.1.y > old(self).cursor.y',
-                   'forall |j: int| old(self).cursor.y < j < r->Ok_0.1.y ==> has(allowed@, #[trigger] at(*old(self), old(self).cursor.x as int, j, layer as int))',
-                   'x == self.cursor.x && self.cursor.y <= y < self.content@.len() && forall |j: int| self.cursor.y < j <= y ==> has(allowed@, #[trigger] at(*self, x as int, j, layer as int))', 'self.content@.len() - y'),
+        search_dir('search_up', 'y', False), search_dir('search_left', 'x', False), search_dir('search_right', 'x', True), search_dir('search_down', 'y', True),
         fn(CV, 'Canvas', 'close_rectangle', ret='r',
            requires=[('fits', 'bottom_right.x < usize::MAX && bottom_right.y < usize::MAX')],
            ensures=[('closed', 'r is Ok ==> closing == top_left && r->Ok_0 == (Rect { left: top_left.x, top: top_left.y, right: (bottom_right.x + 1) as usize, bottom: (bottom_right.y + 1) as usize })'),
@@ -138,9 +156,17 @@ UNIT = {
         fn(CV, 'Canvas', 'recognize_body_rect', ret='r', rewrites=[('R17',)], body_prefix=CHAR,
            requires=[('wf', WF0)],
            ensures=[('grid_kept', KEEP), ('rect_inside_grid', 'r is Ok ==> r->Ok_0.left < r->Ok_0.right <= grid_w(old(self).content@) && r->Ok_0.top < r->Ok_0.bottom <= old(self).content@.len()')]),
-        fn(CV, 'Canvas', 'recognize_crossings', ret='r', rewrites=[('R17',)], body_prefix=CHAR,
+        fn(CV, 'Canvas', 'recognize_crossings', ret='r', rewrites=[('R17',)],
+           body_prefix=CHAR + '\nproof { assert(forall |c: char| among([\'╬\']@, c) <==> c == \'╬\'); assert(forall |c: char| among([\'═\', \'╪\']@, c) <==> (c == \'═\' || c == \'╪\')); '
+                              'assert(forall |c: char| among([\'║\', \'╫\']@, c) <==> (c == \'║\' || c == \'╫\')); }',
            requires=[('wf', WF0), ('fresh', 'old(self).cross_horz is None && old(self).cross_vert is None')],
-           ensures=[('grid_kept', KEEP), ('crossings_inside_grid', 'r is Ok ==> final(self).cross is Some && in_grid(*old(self), final(self).cross->Some_0) '
+           ensures=[('grid_kept', KEEP),
+                    ('main_crossing_is_a_double_crossing', 'r is Ok ==> final(self).cross is Some && in_grid(*old(self), final(self).cross->Some_0) && at(old(self).content@, final(self).cross->Some_0.x as int, final(self).cross->Some_0.y as int, 0) == \'╬\''),
+                    ('annotation_crossing_right_of_the_main_one', '(r is Ok && final(self).cross_horz is Some) ==> final(self).cross_horz->Some_0.y == final(self).cross->Some_0.y && dbl_right(*old(self), final(self).cross->Some_0, final(self).cross_horz->Some_0.x as int)'),
+                    ('annotation_crossing_found_whenever_drawn', '(r is Ok && exists |k: int| dbl_right(*old(self), final(self).cross->Some_0, k)) ==> final(self).cross_horz is Some'),
+                    ('annotation_crossing_below_the_main_one', '(r is Ok && final(self).cross_vert is Some) ==> final(self).cross_vert->Some_0.x == final(self).cross->Some_0.x && dbl_down(*old(self), final(self).cross->Some_0, final(self).cross_vert->Some_0.y as int)'),
+                    ('annotation_crossing_below_found_whenever_drawn', '(r is Ok && exists |k: int| dbl_down(*old(self), final(self).cross->Some_0, k)) ==> final(self).cross_vert is Some'),
+                    ('crossings_inside_grid', 'r is Ok ==> final(self).cross is Some && in_grid(*old(self), final(self).cross->Some_0) '
                                           '&& (final(self).cross_horz is Some ==> in_grid(*old(self), final(self).cross_horz->Some_0)) && (final(self).cross_vert is Some ==> in_grid(*old(self), final(self).cross_vert->Some_0))')]),
         fn(CV, 'Canvas', 'text_from_rect', ret='res', loops=2,
            rewrites=[('RX', 'R18', r'for row in self\.content\[\(r\.top \+ 1\)\.\.\(r\.bottom - 1\)\]\.iter\(\) \{',
@@ -239,20 +265,28 @@ UNIT = {
         fn(PL, 'Plane', 'is_horizontal_output_double_line', ret='r', requires=[('cell_exists', 'pl_in(*self, row as int, col as int)')], ensures=[('variant', 'r == (pl(*self, row as int, col as int) is HorizontalOutputDoubleLine)')]),
         fn(PL, 'Plane', 'is_vertical_output_double_line', ret='r', requires=[('cell_exists', 'pl_in(*self, row as int, col as int)')], ensures=[('variant', 'r == (pl(*self, row as int, col as int) is VerticalOutputDoubleLine)')]),
         fn(PL, 'Plane', 'recognize_horizontal_rule_numbers', ret='r', loops=2, rewrites=RN, body_prefix=VLEN,
+           splices=[{'id': 'not_numbered_a', 'op': 'before', 'anchor': 'return Err(plane_invalid_rule_number(rule_number));', 'text': 'proof { assert forall |r0: int, n: int| numbered_rows(*self, r0, n) implies false by { let k = row - r0; if 1 <= k <= n { assert(numbered(pl(*self, r0 + k, 0), k)); } } }'},
+                    {'id': 'not_numbered_b', 'op': 'before', 'anchor': 'return Ok(RuleNumbersPlacement::NotPresent);', 'nth': 0, 'text': 'proof { assert forall |r0: int, n: int| numbered_rows(*self, r0, n) implies false by { let k = row - r0; if 1 <= k <= n { assert(numbered(pl(*self, r0 + k, 0), k)); } } }'},
+                    {'id': 'not_numbered_c', 'op': 'before', 'anchor': 'return Ok(RuleNumbersPlacement::NotPresent);', 'nth': 1, 'text': 'proof { assert forall |r0: int, n: int| numbered_rows(*self, r0, n) implies false by { let k = row - r0; if 1 <= k <= n { assert(numbered(pl(*self, r0 + k, 0), k)); } } }'}],
            requires=[('rows_not_empty', 'rows_nonempty(*self)'), ('double_line_in_first_column', 'exists |r0: int| hodl_row(*self, r0)')],
            ensures=[('numbered_1_to_n_below_the_double_line', '(r is Ok && r->Ok_0 is LeftBelow) ==> r->Ok_0->LeftBelow_0 >= 1 && exists |r0: int| #[trigger] hodl_row(*self, r0) && r0 + 1 + r->Ok_0->LeftBelow_0 == self.content@.len() '
                                                               '&& forall |k: int| 1 <= k <= r->Ok_0->LeftBelow_0 ==> numbered(#[trigger] pl(*self, r0 + k, 0), k)'),
-                    ('never_right_after', 'r is Ok ==> !(r->Ok_0 is RightAfter)')],
+                    ('never_right_after', 'r is Ok ==> !(r->Ok_0 is RightAfter)'),
+                    ('numbered_rows_are_recognised', 'forall |r0: int, n: int| #[trigger] numbered_rows(*self, r0, n) ==> r is Ok && r->Ok_0 == RuleNumbersPlacement::LeftBelow(n as usize)')],
            loop_specs={0: {'invariant': [('rows', 'rows_nonempty(*self)'), ('not_yet', 'exists |r0: int| #[trigger] hodl_row(*self, r0) && row <= r0'), ('none_above', 'forall |k: int| 0 <= k < row ==> !(#[trigger] pl(*self, k, 0) is HorizontalOutputDoubleLine)')],
                            'ensures': [('at_line', 'hodl_row(*self, row as int)')], 'decreases': 'self.content@.len() - row', 'body_prefix': VLEN},
                        1: {'invariant': [('rows', 'rows_nonempty(*self) && row <= self.content@.len()'), ('line', 'exists |r0: int| #[trigger] hodl_row(*self, r0) && row == r0 + 1 + max_rule_number '
                                                                                                '&& forall |k: int| 1 <= k <= max_rule_number ==> numbered(#[trigger] pl(*self, r0 + k, 0), k)')],
                            'decreases': 'self.content@.len() - row', 'body_prefix': VLEN}}),
         fn(PL, 'Plane', 'recognize_vertical_rule_numbers', ret='r', loops=2, rewrites=RN, body_prefix=VLEN,
+           splices=[{'id': 'not_numbered_a', 'op': 'before', 'anchor': 'return Err(plane_invalid_rule_number(rule_number));', 'text': 'proof { assert forall |c0: int, n: int| numbered_cols(*self, c0, n) implies false by { let k = col - c0; if 1 <= k <= n { assert(numbered(pl(*self, self.content@.len() - 1, c0 + k), k)); } } }'},
+                    {'id': 'not_numbered_b', 'op': 'before', 'anchor': 'return Ok(RuleNumbersPlacement::NotPresent);', 'nth': 0, 'text': 'proof { assert forall |c0: int, n: int| numbered_cols(*self, c0, n) implies false by { let k = col - c0; if 1 <= k <= n { assert(numbered(pl(*self, self.content@.len() - 1, c0 + k), k)); } } }'},
+                    {'id': 'not_numbered_c', 'op': 'before', 'anchor': 'return Ok(RuleNumbersPlacement::NotPresent);', 'nth': 1, 'text': 'proof { assert forall |c0: int, n: int| numbered_cols(*self, c0, n) implies false by { let k = col - c0; if 1 <= k <= n { assert(numbered(pl(*self, self.content@.len() - 1, c0 + k), k)); } } }'}],
            requires=[('rows_not_empty', 'rows_nonempty(*self)'), ('double_line_in_last_row', 'exists |c0: int| vodl_col(*self, c0)')],
            ensures=[('numbered_1_to_n_after_the_double_line', '(r is Ok && r->Ok_0 is RightAfter) ==> r->Ok_0->RightAfter_0 >= 1 && exists |c0: int| #[trigger] vodl_col(*self, c0) && c0 + 1 + r->Ok_0->RightAfter_0 == self.content@.last()@.len() '
                                                               '&& forall |k: int| 1 <= k <= r->Ok_0->RightAfter_0 ==> numbered(#[trigger] pl(*self, self.content@.len() - 1, c0 + k), k)'),
-                    ('never_left_below', 'r is Ok ==> !(r->Ok_0 is LeftBelow)')],
+                    ('never_left_below', 'r is Ok ==> !(r->Ok_0 is LeftBelow)'),
+                    ('numbered_columns_are_recognised', 'forall |c0: int, n: int| #[trigger] numbered_cols(*self, c0, n) ==> r is Ok && r->Ok_0 == RuleNumbersPlacement::RightAfter(n as usize)')],
            loop_specs={0: {'invariant': [('rows', 'rows_nonempty(*self) && row == self.content@.len() - 1'), ('not_yet', 'exists |c0: int| #[trigger] vodl_col(*self, c0) && col <= c0'), ('none_before', 'forall |k: int| 0 <= k < col ==> !(#[trigger] pl(*self, row as int, k) is VerticalOutputDoubleLine)')],
                            'ensures': [('at_line', 'vodl_col(*self, col as int)')], 'decreases': 'self.content@.last()@.len() - col', 'body_prefix': VLEN},
                        1: {'invariant': [('rows', 'rows_nonempty(*self) && row == self.content@.len() - 1 && col <= self.content@.last()@.len()'), ('line', 'exists |c0: int| #[trigger] vodl_col(*self, c0) && col == c0 + 1 + max_rule_number '
@@ -260,7 +294,8 @@ UNIT = {
                            'decreases': 'self.content@.last()@.len() - col', 'body_prefix': VLEN}}),
         fn(PL, 'Plane', 'recognize_rule_numbers_placement', ret='r',
            requires=[('rows_not_empty', 'rows_nonempty(*self)'), ('double_line_in_first_column', 'exists |r0: int| hodl_row(*self, r0)'), ('double_line_in_last_row', 'exists |c0: int| vodl_col(*self, c0)')],
-           ensures=[('left_below', '(r is Ok && r->Ok_0 is LeftBelow) ==> r->Ok_0->LeftBelow_0 >= 1 && exists |r0: int| #[trigger] hodl_row(*self, r0) && r0 + 1 + r->Ok_0->LeftBelow_0 == self.content@.len() '
+           ensures=[('rules_as_rows_numbering_wins', 'forall |r0: int, n: int| #[trigger] numbered_rows(*self, r0, n) ==> r is Ok && r->Ok_0 == RuleNumbersPlacement::LeftBelow(n as usize)'),
+                    ('left_below', '(r is Ok && r->Ok_0 is LeftBelow) ==> r->Ok_0->LeftBelow_0 >= 1 && exists |r0: int| #[trigger] hodl_row(*self, r0) && r0 + 1 + r->Ok_0->LeftBelow_0 == self.content@.len() '
                                    '&& forall |k: int| 1 <= k <= r->Ok_0->LeftBelow_0 ==> numbered(#[trigger] pl(*self, r0 + k, 0), k)'),
                     ('right_after', '(r is Ok && r->Ok_0 is RightAfter) ==> r->Ok_0->RightAfter_0 >= 1 && exists |c0: int| #[trigger] vodl_col(*self, c0) && c0 + 1 + r->Ok_0->RightAfter_0 == self.content@.last()@.len() '
                                     '&& forall |k: int| 1 <= k <= r->Ok_0->RightAfter_0 ==> numbered(#[trigger] pl(*self, self.content@.len() - 1, c0 + k), k)')]),
